@@ -175,6 +175,11 @@ class Gen:
                 return None
             return self._new('flatten', [u], 'any')
         if op == 'pluck':
+            if r.random() < 0.12:
+                # a pick that is a tuple is ONE key (only a list picks several): elements keyed by tuples
+                u = self._pick_up(lambda k: k != 'dict')
+                m = self._new('map', [u], 'opaque', f='astupdict')
+                return self._new('pluck', [m], 'int', pick_tuple=['r', r.choice(['c', 'd'])])
             d = self._pick_up(lambda k: k == 'dict')
             if d is not None and r.random() < 0.6:
                 if r.random() < 0.5:
@@ -480,7 +485,7 @@ def build_node(spec, S, calls, fn_wrap=None, source_kwargs=None):
         elif op == 'flatten':
             n = ups[0].flatten()
         elif op == 'pluck':
-            n = ups[0].pluck(spec['pick'])
+            n = ups[0].pluck(tuple(spec['pick_tuple']) if spec.get('pick_tuple') else spec['pick'])
         elif op == 'collect':
             n = ups[0].collect()
         elif op == 'union':
